@@ -13,6 +13,8 @@ use tensor_chain::{Block, ChainError, Transaction, TransactionState, Transaction
 
 #[derive(Clone, Debug, Serialize, Deserialize)]
 pub enum Op {
+    /// does nothing (shrink target: long sequences collapse to padding)
+    Nop,
     Begin,
     Tx { w: u16, tx: TxSpec },
     Delta { w: u16, dir: u8 },
@@ -45,6 +47,7 @@ pub struct SeqCase {
 
 pub fn strategy(t: Tier) -> impl Strategy<Value = SeqCase> {
     let op = prop_oneof![
+        1 => Just(Op::Nop),
         8 => Just(Op::Begin),
         24 => (any::<u16>(), tx_strategy()).prop_map(|(w, tx)| Op::Tx { w, tx }),
         3 => (any::<u16>(), 0u8..7).prop_map(|(w, dir)| Op::Delta { w, dir }),
@@ -62,7 +65,7 @@ pub fn strategy(t: Tier) -> impl Strategy<Value = SeqCase> {
         prop_oneof![3 => Just(0u8), 1 => Just(1u8), 1 => Just(2u8)],
         prop::bool::weighted(0.7),
         prop::bool::weighted(0.75),
-        prop::bool::weighted(0.25),
+        prop::bool::weighted(0.15),
         prop_oneof![4 => Just(0u8), 2 => Just(1u8), 1 => Just(2u8)],
         prop_oneof![1 => prop::collection::vec(op.clone(), 0..12), 4 => prop::collection::vec(op, 12..=max_ops)],
     )
@@ -286,7 +289,7 @@ impl Run {
         let tip0 = self.node.chain.tip_hash();
         let ws = self.open.remove(i);
         if unreg {
-            self.node.chain.validator_registry().remove(&self.node.node_id);
+            let _ = self.node.chain.validator_registry().remove(&self.node.node_id);
         }
         let r = self.node.chain.commit(&ws.h);
         if unreg {
@@ -334,17 +337,27 @@ impl Run {
                 let Some(block) = self.expect_new_block(ctx, "commit", &pre, h0, tip0, hash, true)? else { return Ok(()) };
                 // content: own operations first, then whole merged workspaces in some order
                 let txs = &block.transactions;
-                let mut ok = txs.len() >= ws.ops.len() && txs[..ws.ops.len()] == ws.ops[..];
-                let mut pos = ws.ops.len();
-                let mut left: Vec<&Ws> = merged.iter().collect();
-                while ok && !left.is_empty() {
-                    if let Some(j) = left.iter().position(|m| txs.len() >= pos + m.ops.len() && txs[pos..pos + m.ops.len()] == m.ops[..]) {
-                        pos += left[j].ops.len();
-                        left.remove(j);
-                    } else {
-                        ok = false;
+                // (merge order follows a hash map, and one workspace's list may be a prefix of another's: search)
+                fn tail_is_some_order(txs: &[Transaction], left: &mut Vec<&[Transaction]>) -> bool {
+                    if left.is_empty() {
+                        return txs.is_empty();
                     }
+                    for j in 0..left.len() {
+                        let m = left[j];
+                        if txs.len() >= m.len() && txs[..m.len()] == *m {
+                            left.remove(j);
+                            let ok = tail_is_some_order(&txs[m.len()..], left);
+                            left.insert(j, m);
+                            if ok {
+                                return true;
+                            }
+                        }
+                    }
+                    false
                 }
+                let mut left: Vec<&[Transaction]> = merged.iter().map(|m| &m.ops[..]).collect();
+                let ok = txs.len() >= ws.ops.len() && txs[..ws.ops.len()] == ws.ops[..] && tail_is_some_order(&txs[ws.ops.len()..], &mut left);
+                let pos = txs.len();
                 if !ok || pos != txs.len() {
                     ctx.fail("seq:commit:block-content", format!("block has {} transactions; workspace had {} and {} merged workspace(s) had {:?}", txs.len(), ws.ops.len(), merged.len(), merged.iter().map(|m| m.ops.len()).collect::<Vec<_>>()))?;
                 }
@@ -536,6 +549,7 @@ pub fn check(c: &SeqCase, ctx: &mut CaseCtx) -> Result<(), Fail> {
     }
     for op in &c.ops {
         match op {
+            Op::Nop => {},
             Op::Begin => {
                 if run.open.len() >= 3 {
                     ctx.label("skip:begin-at-3-open");
@@ -555,7 +569,16 @@ pub fn check(c: &SeqCase, ctx: &mut CaseCtx) -> Result<(), Fail> {
             },
             Op::Tx { w, tx } => {
                 if run.open.is_empty() {
-                    continue;
+                    // nothing to write into: begin a workspace first (keeps long sequences productive)
+                    let h = run.node.chain.begin().map_err(|e| Fail::new("seq:begin:error", e.to_string()))?;
+                    let uid = run.next_uid;
+                    run.next_uid += 1;
+                    let delta = c.auto_delta % 3 != 0;
+                    if delta {
+                        h.set_before_embedding(&[0.0; 4]);
+                        h.compute_delta(&delta_dir(if c.auto_delta % 3 == 1 { (uid % 4) as u8 } else { 0 }));
+                    }
+                    run.open.push(Ws { h, ops: Vec::new(), begun: run.version, uid, delta });
                 }
                 let i = pick(*w, run.open.len());
                 let t = to_tx(tx);
